@@ -1,3 +1,4 @@
+import WmModel.Props.C07Term
 import WmModel.Props.C05Reg
 import WmModel.Props.C07
 #print axioms Wm.GcSub.never_panics
@@ -10,3 +11,5 @@ import WmModel.Props.C07
 #print axioms Wm.GcReg.publish_after_close_errs
 #print axioms Wm.GcReg.subscribe_after_close_errs
 #print axioms Wm.GcReg.writer_unique
+#print axioms Wm.GcSub.internal_steps_bounded
+#print axioms Wm.GcSub.cur_unsettled_at_sendSel
